@@ -8,7 +8,13 @@ Translated:
   PDFXRefStream.get_pos      f1/f2/f3 decoding    -> typeDefault, field2Default, field3Default, entryOfRow
   PDFXRefStream.get_objids   `f1 == 1 or f1 == 2`, `offset >= len(self.data)` guard -> inUseType, rowInData
   PDFXRefStream.load         Index default, /W arity, zero-length rows -> defaultIndex, widthsArity, zeroLengthRows
-  PDFXRef.load               b"trailer", field counts 2 / 3, b"n" -> kwTrailer, headerFields, entryFields, inUseMarker
+  PDFXRefStream.get_pos/get_objids/load  row addressing: `offset = entlen * index`, the slices of `ent`/f1/f2/f3,
+                             `self.entlen = …`, the /Index walk (range test, `index +=` on hit / miss, start value)
+                             -> entlenOf, rowOffset, rowBytes, field1..3, objidsRowOffset, objidsRowBytes, objidsField1,
+                                inRange, indexHit, indexMiss, indexStart
+  PDFXRef.load               b"trailer", field counts 2 / 3, b"n" -> kwTrailer, headerFields, entryFields, inUseMarker;
+                             tuple unpacking of an entry line, the stored tuple, range(start, start + nobjs)
+                             -> entryTuple, tableEntryOf, subsectionFirst, subsectionStop
   PDFDocument.find_xref      b"startxref"         -> kwStartxref
   PDFDocument._getobj_objstm `i = n * 2 + index`  -> objstmIndex
   PDFDocument.read_xref_from order of the trailer keys followed -> chainOrder
@@ -48,6 +54,117 @@ def nat_expr(e: ast.expr, names: List[str]) -> str:
         op = "+" if isinstance(e.op, ast.Add) else "*"
         return f"({nat_expr(e.left, names)} {op} {nat_expr(e.right, names)})"
     raise P.Untranslatable("not a +/* expression over naturals: " + ast.dump(e))
+
+
+
+def nat_expr2(e: ast.expr, names: List[str]) -> str:
+    """+, *, - (truncated: only sound under the guard the code itself tests) over natural-number names,
+    `self.<name>` attributes and literals."""
+    if isinstance(e, ast.Name) and e.id in names:
+        return e.id
+    if isinstance(e, ast.Attribute) and is_name(e.value, "self") and e.attr in names:
+        return e.attr
+    c = const_int(e)
+    if c is not None and c >= 0:
+        return str(c)
+    if isinstance(e, ast.BinOp) and isinstance(e.op, (ast.Add, ast.Mult, ast.Sub)):
+        op = {ast.Add: "+", ast.Mult: "*", ast.Sub: "-"}[type(e.op)]
+        return f"({nat_expr2(e.left, names)} {op} {nat_expr2(e.right, names)})"
+    raise P.Untranslatable("not a +/*/- expression over naturals: " + ast.dump(e))
+
+
+def bool_expr2(e: ast.expr, names: List[str]) -> str:
+    if isinstance(e, ast.BoolOp) and isinstance(e.op, (ast.And, ast.Or)):
+        op = " && " if isinstance(e.op, ast.And) else " || "
+        return "(" + op.join(bool_expr2(v, names) for v in e.values) + ")"
+    if isinstance(e, ast.Compare) and len(e.ops) == 1:
+        ops = {ast.LtE: "≤", ast.Lt: "<", ast.GtE: "≥", ast.Gt: ">", ast.Eq: "=", ast.NotEq: "≠"}
+        if type(e.ops[0]) in ops:
+            return f"decide ({nat_expr2(e.left, names)} {ops[type(e.ops[0])]} {nat_expr2(e.comparators[0], names)})"
+    raise P.Untranslatable("not a comparison chain over naturals: " + ast.dump(e))
+
+
+PYSLICE = ("/-- Python `d[lo:hi]` for non-negative bounds (`none` = bound omitted) -/\n"
+           "def pySlice (d : Bytes) (lo : Nat) (hi : Option Nat) : Bytes :=\n"
+           "  match hi with\n  | some h => (d.take h).drop lo\n  | none => d.drop lo\n\n")
+
+
+def slice_of(e: ast.expr, base: str, names: List[str]) -> str:
+    """`base[lo:hi]` -> `pySlice base lo hi`; `base` is a local name or `self.<base>`."""
+    if not (isinstance(e, ast.Subscript) and isinstance(e.slice, ast.Slice) and e.slice.step is None):
+        raise P.Untranslatable("not a slice: " + ast.dump(e))
+    v = e.value
+    if not (is_name(v, base) or (isinstance(v, ast.Attribute) and is_name(v.value, "self") and v.attr == base)):
+        raise P.Untranslatable(f"slice of something else than {base}")
+    lo = nat_expr2(e.slice.lower, names) if e.slice.lower is not None else "0"
+    hi = f"(some {nat_expr2(e.slice.upper, names)})" if e.slice.upper is not None else "none"
+    return f"pySlice {base} {lo} {hi}"
+
+
+def find_local_assign(fn: ast.AST, name: str) -> ast.expr:
+    hits = [st for st in walk_type(fn, ast.Assign) if len(st.targets) == 1 and is_name(st.targets[0], name)]
+    if len(hits) != 1:
+        raise P.Untranslatable(f"expected exactly one `{name} = ...`")
+    return hits[0].value
+
+
+def gen_rows(doc: ast.Module) -> List[str]:
+    """Row addressing of `get_pos` / `get_objids` and the /Index walk of `get_pos`."""
+    out = [PYSLICE]
+    load = P.find_function(doc, "PDFXRefStream.load")
+    ent = [st for st in walk_type(load, ast.Assign) if len(st.targets) == 1 and isinstance(st.targets[0], ast.Attribute)
+           and st.targets[0].attr == "entlen" and is_name(st.targets[0].value, "self")]
+    if len(ent) != 1:
+        raise P.Untranslatable("PDFXRefStream.load: self.entlen = ...")
+    out.append("/-- `self.entlen = …` of `PDFXRefStream.load` -/\n"
+               f"def entlenOf (fl1 fl2 fl3 : Nat) : Nat := {nat_expr2(ent[0].value, ['fl1', 'fl2', 'fl3'])}\n\n")
+    fl = ["fl1", "fl2", "fl3"]
+    for meth, pre in (("get_pos", ""), ("get_objids", "objids")):
+        fn = P.find_function(doc, "PDFXRefStream." + meth)
+        nm = (lambda x: pre + x[0].upper() + x[1:]) if pre else (lambda x: x)
+        out.append(f"/-- `offset = …` of `PDFXRefStream.{meth}` -/\n"
+                   f"def {nm('rowOffset')} (entlen index : Nat) : Nat := "
+                   f"{nat_expr2(find_local_assign(fn, 'offset'), ['entlen', 'index'])}\n\n")
+        out.append(f"/-- `ent = self.data[…]` of `PDFXRefStream.{meth}` -/\n"
+                   f"def {nm('rowBytes')} (data : Bytes) (offset entlen : Nat) : Bytes := "
+                   f"{slice_of(find_local_assign(fn, 'ent'), 'data', ['offset', 'entlen'])}\n\n")
+        for f in (("f1", "f2", "f3") if meth == "get_pos" else ("f1",)):
+            call = find_local_assign(fn, f)
+            if not (isinstance(call, ast.Call) and is_name(call.func, "nunpack") and call.args):
+                raise P.Untranslatable(f"{meth}: {f} = nunpack(...)")
+            out.append(f"/-- the bytes of `{f}` in `PDFXRefStream.{meth}` -/\n"
+                       f"def {nm('field' + f[1])} (ent : Bytes) (fl1 fl2 fl3 : Nat) : Bytes := "
+                       f"{slice_of(call.args[0], 'ent', fl)}\n\n")
+    # for start, nobjs in self.ranges: if <test>: index += <hit>; break  else: index += <miss>   else: raise
+    fn = P.find_function(doc, "PDFXRefStream.get_pos")
+    loops = [st for st in fn.body if isinstance(st, ast.For)]
+    if len(loops) != 1:
+        raise P.Untranslatable("get_pos: one for loop")
+    lp = loops[0]
+    ok = (isinstance(lp.target, ast.Tuple) and [getattr(t, "id", None) for t in lp.target.elts] == ["start", "nobjs"]
+          and isinstance(lp.iter, ast.Attribute) and lp.iter.attr == "ranges" and len(lp.body) == 1
+          and isinstance(lp.body[0], ast.If) and len(lp.orelse) == 1 and isinstance(lp.orelse[0], ast.Raise))
+    if not ok:
+        raise P.Untranslatable("get_pos: loop shape")
+    iff = lp.body[0]
+    ok = (len(iff.body) == 2 and isinstance(iff.body[0], ast.AugAssign) and isinstance(iff.body[0].op, ast.Add)
+          and is_name(iff.body[0].target, "index") and isinstance(iff.body[1], ast.Break)
+          and len(iff.orelse) == 1 and isinstance(iff.orelse[0], ast.AugAssign) and isinstance(iff.orelse[0].op, ast.Add)
+          and is_name(iff.orelse[0].target, "index"))
+    if not ok:
+        raise P.Untranslatable("get_pos: if/else inside the loop")
+    idx0 = find_local_assign(fn, "index")
+    if const_int(idx0) is None:
+        raise P.Untranslatable("get_pos: index = <literal>")
+    names = ["start", "nobjs", "objid"]
+    out.append(f"/-- `index = …` before the loop of `PDFXRefStream.get_pos` -/\ndef indexStart : Nat := {const_int(idx0)}\n\n")
+    out.append("/-- the range test of the `/Index` walk in `PDFXRefStream.get_pos` -/\n"
+               f"def inRange (start nobjs objid : Nat) : Bool := {bool_expr2(iff.test, names)}\n\n")
+    out.append("/-- `index += …; break` (the range holds `objid`) -/\n"
+               f"def indexHit (index start nobjs objid : Nat) : Nat := (index + {nat_expr2(iff.body[0].value, names)})\n\n")
+    out.append("/-- `index += …` (the range does not hold `objid`) -/\n"
+               f"def indexMiss (index start nobjs objid : Nat) : Nat := (index + {nat_expr2(iff.orelse[0].value, names)})\n\n")
+    return out
 
 
 def gen_nunpack(utils: ast.Module) -> List[str]:
@@ -256,7 +373,46 @@ def gen_table(doc: ast.Module) -> List[str]:
             sep = c.args[0].value
     if len(counts) != 2 or marker is None or sep is None or len(sep) != 1:
         raise P.Untranslatable("PDFXRef.load: field counts / in-use marker / separator")
-    return [f"/-- `line.startswith({kw!r})` in `PDFXRef.load` -/\ndef kwTrailer : Bytes := {P.lean_bytes(kw)}\n\n",
+    # `(pos_b, genno_b, use_b) = f`, `pos_i = safe_int(pos_b)`, `genno_i = safe_int(genno_b)`,
+    # `self.offsets[objid] = (None, pos_i, genno_i)`: which split field is the offset, the generation, the marker
+    tup = [st for st in walk_type(fn, ast.Assign) if len(st.targets) == 1 and isinstance(st.targets[0], ast.Tuple)
+           and is_name(st.value, "f") and len(st.targets[0].elts) == 3 and all(isinstance(e, ast.Name) for e in st.targets[0].elts)]
+    if len(tup) != 1:
+        raise P.Untranslatable("PDFXRef.load: `(a, b, c) = f` not found")
+    order = [e.id for e in tup[0].targets[0].elts]
+    src = {}
+    for nm in ("pos_i", "genno_i"):
+        v = find_local_assign(fn, nm)
+        if not (isinstance(v, ast.Call) and is_name(v.func, "safe_int") and len(v.args) == 1 and isinstance(v.args[0], ast.Name)
+                and v.args[0].id in order):
+            raise P.Untranslatable(f"PDFXRef.load: {nm} = safe_int(<field>)")
+        src[nm] = order.index(v.args[0].id)
+    if "use_b" not in order:
+        raise P.Untranslatable("PDFXRef.load: use_b is not one of the fields")
+    store = [st for st in walk_type(fn, ast.Assign) if len(st.targets) == 1 and isinstance(st.targets[0], ast.Subscript)
+             and isinstance(st.targets[0].value, ast.Attribute) and st.targets[0].value.attr == "offsets"
+             and is_name(st.targets[0].slice, "objid")]
+    if len(store) != 1 or not isinstance(store[0].value, ast.Tuple) or len(store[0].value.elts) != 3:
+        raise P.Untranslatable("PDFXRef.load: self.offsets[objid] = (…, …, …)")
+    els = store[0].value.elts
+    if not (isinstance(els[0], ast.Constant) and els[0].value is None and all(isinstance(e, ast.Name) and e.id in src for e in els[1:])):
+        raise P.Untranslatable("PDFXRef.load: stored tuple is not (None, <pos_i|genno_i>, <pos_i|genno_i>)")
+    rng = [c for c in walk_type(fn, ast.Call) if is_name(c.func, "range") and len(c.args) == 2]
+    if len(rng) != 1:
+        raise P.Untranslatable("PDFXRef.load: range(start, stop)")
+    extra = [
+        "/-- `(pos_b, genno_b, use_b) = f` with `pos_i = safe_int(…)`, `genno_i = safe_int(…)`, `use_b != …`: the split\n"
+        "fields of an entry line as (offset field, generation field, marker field) -/\n"
+        "def entryTuple {α : Type} (f0 f1 f2 : α) : α × α × α := "
+        f"(f{src['pos_i']}, f{src['genno_i']}, f{order.index('use_b')})\n\n",
+        "/-- `self.offsets[objid] = (…)` in `PDFXRef.load` -/\n"
+        "def tableEntryOf (pos_i genno_i : Nat) : Option Nat × Nat × Nat := "
+        f"(none, {els[1].id}, {els[2].id})\n\n",
+        "/-- `for objid in range(…, …)`: first object number and stop of a subsection -/\n"
+        f"def subsectionFirst (start nobjs : Int) : Int := {nat_expr2(rng[0].args[0], ['start', 'nobjs'])}\n\n"
+        f"def subsectionStop (start nobjs : Int) : Int := {nat_expr2(rng[0].args[1], ['start', 'nobjs'])}\n\n",
+    ]
+    return extra + [f"/-- `line.startswith({kw!r})` in `PDFXRef.load` -/\ndef kwTrailer : Bytes := {P.lean_bytes(kw)}\n\n",
             f"/-- `len(f) != {counts[0]}` (subsection header) -/\ndef headerFields : Nat := {counts[0]}\n\n",
             f"/-- `len(f) != {counts[1]}` (entry line) -/\ndef entryFields : Nat := {counts[1]}\n\n",
             f"/-- `use_b != {marker!r}` -/\ndef inUseMarker : Bytes := {P.lean_bytes(marker)}\n\n",
@@ -311,7 +467,7 @@ def generate(lean_dir: str):
     utils = P.parse_file("pdfminer/utils.py")
     doc = P.parse_file("pdfminer/pdfdocument.py")
     out = [P.HEADER.format(src="pdfminer/utils.py, pdfminer/pdfdocument.py", ns="Xref")]
-    for part in (gen_nunpack(utils), gen_get_pos(doc), gen_get_objids(doc), gen_load(doc), gen_table(doc),
+    for part in (gen_nunpack(utils), gen_get_pos(doc), gen_get_objids(doc), gen_load(doc), gen_rows(doc), gen_table(doc),
                  gen_find_xref(doc), gen_objstm(doc), gen_chain(doc), gen_cue(doc)):
         out += part
     out.append("end PdfVerif.Gen.Xref\n")
